@@ -284,6 +284,15 @@ def run_obs(plan, tier: str) -> Tuple[List["RxOb"], List[Ob], float]:
                 items.append((plan, oi, qi, tmo, CONFIRM_MS[tier]))
                 where.append((oi, qi))
     res = solver_pool().map(items, hard_timeout_s=3 * tmo / 1000 + 30)
+    # a time-out on a busy machine is not a verdict: queries left unknown are asked again with six times the budget
+    again = [k for k, r in enumerate(res) if r.get("status") == "unknown"]
+    if again:
+        items2 = [(items[k][0], items[k][1], items[k][2], 6 * tmo, 6 * CONFIRM_MS[tier]) for k in again]
+        res2 = solver_pool().map(items2, hard_timeout_s=18 * tmo / 1000 + 60)
+        for k, r in zip(again, res2):
+            if r.get("status") != "unknown":
+                r["trail"] = list(r.get("trail", [])) + ["(second attempt with 6x budget)"]
+                res[k] = r
     per: Dict[int, List[Tuple[int, dict]]] = {}
     for (oi, qi), r in zip(where, res):
         per.setdefault(oi, []).append((qi, r))
